@@ -3,12 +3,12 @@ package sim
 import (
 	"context"
 	"database/sql"
-	"strings"
 	"encoding/base64"
 	"fmt"
 	"io"
 	"os"
 	"runtime/debug"
+	"strings"
 	"sync/atomic"
 	"testing"
 
@@ -73,9 +73,10 @@ func (nullFormatter) Format(*logrus.Entry) ([]byte, error) { return nil, nil }
 var envCounter atomic.Int64
 
 type EnvOpts struct {
-	File bool   // file-backed database instead of shared-cache memory
-	Dir  string // directory for file-backed database
-	WAL  bool
+	File   bool   // file-backed database instead of shared-cache memory
+	Dir    string // directory for file-backed database
+	WAL    bool
+	NoWarm bool // do not touch the lazily initialised registry members (C14 race mode)
 }
 
 func NewEnv(t testing.TB, opts EnvOpts) *Env {
@@ -124,6 +125,9 @@ func NewEnv(t testing.TB, opts EnvOpts) *Env {
 	lg.AddHook(e.Log)
 	e.L1 = &l1{names: &nameTable{m: map[uuid.UUID]string{}}}
 	e.Deps = newSimDeps(reg, e.L1)
+	if opts.NoWarm {
+		return e
+	}
 	// warm up every lazily initialised member outside any bubble
 	_ = reg.Tracer(e.Ctx)
 	_ = reg.Writer()
@@ -262,4 +266,17 @@ func NewEnvFor(t testing.TB, prop, mode string) *Env {
 		}
 	}
 	return NewEnv(t, EnvOpts{})
+}
+
+// Close releases what an Env holds (used when several are created in one process).
+func (e *Env) Close() {
+	if e.sys != nil {
+		e.sys.Close()
+	}
+	if e.keeper != nil {
+		_ = e.keeper.Close()
+	}
+	if c, err := e.Reg.PopConnection(e.Ctx); err == nil {
+		_ = c.Close()
+	}
 }
